@@ -201,10 +201,14 @@ class _Gen:
                     "call": r.random() < 0.7}
         if k == "render":
             wnode = wins[-1]
+            last = getattr(self, "last_render", None)
+            if last is not None and last["on"] == wnode["id"] and r.random() < 0.25:
+                return planmod.clone(last)          # the very same frame again
             n = r.randint(0, self.h)
             rows = [gen.gen_row(r, r.randint(0, self.w), 0.6) for _ in range(n)]
             cr = r.randrange(n) if n else 0
-            return {"op": "render", "on": wnode["id"], "rows": rows, "cursor": [cr, r.randrange(self.w)]}
+            self.last_render = {"op": "render", "on": wnode["id"], "rows": rows, "cursor": [cr, r.randrange(self.w)]}
+            return planmod.clone(self.last_render)
         return {"op": "query", "on": caw[-1]["id"]}
 
 
@@ -780,7 +784,6 @@ def _run_one(p, keep_log):
             world.probe("custom_sigint_handler")
         elif cfg["sigint_initial"] == "ign":
             kernel.sig.handlers[_signal.SIGINT] = _signal.SIG_IGN
-        kernel.sig.app_is_main = cfg["app_main"]
         if not cfg["app_main"]:
             world.probe("non_main_thread")
         if cfg["wakeup_initial"]:
@@ -793,26 +796,40 @@ def _run_one(p, keep_log):
             world.probe("initial_nonblock_set")
         ex = _Exec(p, s, res)
         first = ex.snap()
+        def drive():
+            try:
+                ex.run_items(p["tree"])
+            except _Stop:
+                pass
+            except (CrashBase, CrashExc, KeyboardInterrupt):
+                pass
+            except (Quiescent, StepCap, HarnessError):
+                raise
+            except Exception as e:
+                # an operation failed on its own (e.g. a key-decoding error): for C12 that is one more way of
+                # leaving the contexts by exception -- restoration was checked on the way out
+                if _in_harness(e):
+                    import traceback
+                    res["error"] = "exception inside harness code: " + traceback.format_exc(limit=8)
+                else:
+                    world.probe("unplanned_exception_" + type(e).__name__)
+
         try:
-            ex.run_items(p["tree"])
-        except _Stop:
-            pass
-        except (CrashBase, CrashExc, KeyboardInterrupt):
-            pass
+            if cfg["app_main"]:
+                drive()
+            else:
+                # the application uses curtsies from a real non-main thread (signal.* is refused there,
+                # threading.main_thread() says so): the simulated main thread only waits for it
+                t = world.spawn("app", drive)
+                world.join_all()
+                if isinstance(t.exc, HarnessError):
+                    raise t.exc
+                if t.exc is not None:
+                    res["error"] = "app thread ended with %r" % (t.exc,)
         except Quiescent:
             res["error"] = "scenario blocked forever (plan without a wake-up for a blocking request)"
         except StepCap:
             res["error"] = "step cap exceeded"
-        except HarnessError:
-            raise
-        except Exception as e:
-            # an operation failed on its own (e.g. a key-decoding error): for C12 that is one more way of
-            # leaving the contexts by exception -- restoration was checked on the way out
-            if _in_harness(e):
-                import traceback
-                res["error"] = "exception inside harness code: " + traceback.format_exc(limit=8)
-            else:
-                world.probe("unplanned_exception_" + type(e).__name__)
         res["info"] = ex.info
         if not res["violation"] and not res["error"]:
             last = ex.snap()
